@@ -51,6 +51,40 @@ pub fn replay(w: &Value) -> Option<bool> {
             let v = e.check_network_request(&q.req);
             Some(verdict_ok(&v, &w["expect"]))
         }
+        "multi-list-scriptlet" => {
+            use adblock::lists::{FilterSet, ParseOptions};
+            use adblock::resources::{MimeType, PermissionMask, ResourceType};
+            // repeated: the pre-fix behaviour depended on hash-map iteration order
+            for _ in 0..40 {
+                let mut fs = FilterSet::new(true);
+                for l in w["lists"].as_array()? {
+                    let rule = l[0].as_str()?;
+                    let perm = l[1].as_u64()? as u8;
+                    let _ = fs.add_filter(rule, ParseOptions { permissions: PermissionMask::from_bits(perm), ..Default::default() });
+                }
+                let mut e = Engine::from_filter_set(fs, true);
+                let mut res = vec![];
+                for r in w["resources"].as_array()? {
+                    let kind = if r["fn"].as_bool().unwrap_or(false) { ResourceType::Mime(MimeType::FnJavascript) } else { ResourceType::Mime(MimeType::ApplicationJavascript) };
+                    let mut x = mk_resource(r["name"].as_str()?, &[], kind, r["body"].as_str()?, r["perm"].as_u64()? as u8);
+                    x.dependencies = strs(&r["deps"]);
+                    res.push(x);
+                }
+                e.use_resources(res);
+                let script = e.url_cosmetic_resources(&g("url")).injected_script;
+                for a in strs(&w["expect_absent"]) {
+                    if script.contains(&a) {
+                        return Some(false);
+                    }
+                }
+                for a in strs(&w["expect_present"]) {
+                    if !script.contains(&a) {
+                        return Some(false);
+                    }
+                }
+            }
+            Some(true)
+        }
         "rule-match" => {
             let mut pr = parse_all(&[g("rule")]);
             let q = make_req(&g("url"), &g("source"), &g("type"))?;
